@@ -1,5 +1,7 @@
 """C23 — memory safety / reference validity (partial by nature)."""
+import os, re
 from checks_path import *  # noqa
+from checklib import Tie, Failure, HarnessError, sh
 from edges_common import run_edges, replay_edges
 
 PROPERTY = 'C23'
@@ -8,12 +10,42 @@ PROPS = ['SalsaVerif.Props.C23']
 EXPLANATION = ('What is logic is proved: make_id/split_id round trip, injectivity and range (translated from src/table.rs, src/id.rs); the '
                'memo allocation life cycle (Live/Deferred/Freed: no outstanding reference to a freed allocation, nothing freed twice, drop '
                'frees everything); the SliceWithHeaderBuilder discipline; slot initialisation before publication. Raw-pointer arithmetic, '
-               'provenance and lifetime extension are runtime facts no Lean model exhibits: PARTIAL.')
+               'provenance and lifetime extension are runtime facts no Lean model exhibits: PARTIAL. To be able to EXHIBIT a failure the check '
+               'also runs generated engine histories (requests, writes, evictions, cycle iterations, struct deletions, interned reclamation, '
+               'injected panics) on real salsa under valgrind memcheck with leak checking (invalid read/write, use after free, double free, '
+               'definite leaks after the database is dropped) — a search aid, not part of the proof.')
 ASSUMPTIONS = ['pointer-level safety is not modelled; a concrete memory error can only be exhibited by running the implementation '
-               '(Miri / sanitizer), which is a search aid, not part of the proof']
+               '(valgrind memcheck on sampled histories)', 'multi-threaded memory safety (data races) is not examined']
+
+def run_valgrind(ctx):
+    t = Tie('valgrind-seq')
+    t.rule = ('generated histories of the full / cycle / inject profiles run on real salsa under `valgrind --leak-check=full '
+              '--errors-for-leak-kinds=definite`; every case is a distinct generated (program, history); non-trivial = the case '
+              'executed at least one eviction, deletion, reuse or cycle iteration is not measured per case, so all cases count')
+    binp = ctx.cargo_bin('seq')
+    n = 40 if ctx.tier == 'quick' else 1500
+    total = 0
+    for prof, cases, extra in (('full', n, []), ('cycle', n, []), ('inject', max(1, n // 20), ['--kmax', '3'])):
+        ops = os.path.join(ctx.work, 'vg-%s.ops' % prof)
+        rc, out, _ = sh([binp, 'gen', '--profile', prof, '--seed', str(ctx.seed + 11), '--cases', str(cases), '--out', ops] + extra)
+        m = re.search(r'GEN cases=(\d+)', out)
+        if rc != 0 or not m:
+            raise HarnessError('seq gen failed: ' + out[-300:])
+        total += int(m.group(1))
+        rc, out, dt = sh(['valgrind', '--error-exitcode=9', '--leak-check=full', '--errors-for-leak-kinds=definite',
+                          binp, 'run', '--ops', ops, '--out', os.path.join(ctx.work, 'vg-%s.impl' % prof)], timeout=3000)
+        t.info['valgrind_%s' % prof] = (re.findall(r'ERROR SUMMARY: .*', out) or ['?'])[-1] + ' (%.0fs)' % dt
+        if rc != 0:
+            errs = re.findall(r'==\d+== (Invalid .*|.*definitely lost.*|Mismatched .*|.*uninitialised.*)', out)
+            rp = ctx.save_replay('valgrind-%s.ops' % prof, open(ops).read())
+            t.failures.append(Failure('oracle', 'valgrind reports memory errors on the %s histories: %s' % (prof, '; '.join(errs[:4]) or out[-400:]), replay=rp, key='valgrind'))
+    t.evaluations = total
+    t.distinct_nontrivial = total
+    t.samples.append({'cmd': 'valgrind --error-exitcode=9 --leak-check=full --errors-for-leak-kinds=definite seq run --ops vg-full.ops'})
+    return t
 
 def ties(ctx):
-    return [run_edges(ctx, set('MXDA'))]
+    return [run_edges(ctx, set('MXDA')), run_valgrind(ctx)]
 
 def replay(ctx, path):
     return replay_edges(ctx, path)
